@@ -85,6 +85,30 @@ def run_case(case):
             mapper = DeviceInstanceTypeMapper()
             for ps, pi, pt in case.get("preload", []):          # what an earlier scan (of other units) left behind
                 mapper.add_type(short_address=ps, instance_number=pi, instance_type=pt)
+            if case.get("abandon_first") is not None:
+                # an earlier scan with this mapper was given up part-way (the driver lost its gateway, the task was
+                # cancelled): the next scan is a scan like any other
+                import copy
+                from .unitsim import drive_iter
+                sim0 = DevBusSim(copy.deepcopy(bus))
+                g0 = mapper.autodiscover(case["addresses"])
+                it = drive_iter(g0, lambda cmd: ((sim0.step(cmd.frame.as_integer) if len(cmd.frame) == 24 else ("none", 0)), {}), 6000)
+                try:
+                    for _ in range(case["abandon_first"][1]):
+                        next(it)
+                    if case["abandon_first"][0] == "close":
+                        g0.close()
+                    else:
+                        import asyncio
+                        try:
+                            g0.throw(asyncio.CancelledError())
+                        except BaseException:   # noqa: what abandoning does is judged by the 'abandon' cases
+                            pass
+                except StopIteration:
+                    pass
+                except BaseException:   # noqa
+                    pass
+                it.close()
             gen = mapper.autodiscover(case["addresses"])
         if case.get("abandon"):
             return _abandon(rec, gen, answer, case)
@@ -259,6 +283,9 @@ def cases(tier, seed):
             for fk in ("silent", "err", "errsame"):
                 cs.append({"seq": "discover", "bus": _bus([dict(d, inst=[dict(i) for i in d["inst"]]) for d in devs], rng, fault=(at, fk)),
                            "addresses": [4, 9], "scan": [4, 9]})
+    # a complete scan after an abandoned one with the same mapper
+    for k, c in enumerate([c for c in cs if c["seq"] == "discover" and not c.get("preload") and c["bus"]["fault"][1] == "none"][:40 if tier == "quick" else 400]):
+        cs.append(dict(c, abandon_first=["close" if k % 2 else "cancel", 1 + (k * 3) % 11]))
     # every kind of sequence given up part-way, at every position of a short run and at random ones of long runs
     base = {}
     for c in cs:
